@@ -8,6 +8,7 @@ import HealSparse.Lemmas.Ranges
 import HealSparse.Model.Ranges
 import HealSparse.Props.C04
 import HealSparse.Props.C01
+import HealSparse.Lemmas.ApiRanges
 namespace HS
 namespace C08
 
@@ -98,6 +99,605 @@ theorem expand_upgrade (g : Nat) (R : List (Nat × Nat)) (p : Nat) :
 example : RangesOk ⟨3, 1⟩ [(4, 6), (0, 2), (1, 1)] := by unfold RangesOk; decide
 example : (updateRanges (V := Nat) ⟨3, 1⟩ ⟨0, fun x => x != 0⟩ ⟨#[0, -2, -4], #[0, 0]⟩
     (fun _ => 5) [(4, 6), (1, 3)] false).sp = #[0, 0, 0, 5, 5, 0, 5, 5] := by decide +kernel
+
+
+open ApiRanges
+
+/-! ## The two implementations of a range update at the API level
+
+`apiUpdateRanges m op R val slicePath` (Model/Api.lean): `slicePath = true` is
+`_update_values_pixel_ranges` (block by block), `false` expands the rows into a pixel list
+and runs `update_values_pix`.  Below: `slice` / `expand` for the two calls. -/
+
+/-- rows with start ≤ end -/
+def RowsOrdered (R : List (Nat × Nat)) : Prop := ∀ ab ∈ R, ab.1 ≤ ab.2
+
+/-- there is no row at all, or some row holds a pixel -/
+def SomePixel (R : List (Nat × Nat)) : Prop := R = [] ∨ expand R ≠ []
+
+/-- a record-field view is not asked to make an unset pixel valid -/
+def ViewOk (m : MapObj) (R : List (Nat × Nat)) : Prop :=
+  (m.view.isSome && (expand R).any fun p => m.abs p == m.sent) = false
+
+/-- the operation has no pre-pass (everything but `add` over a non-zero sentinel), or no pixel
+    is addressed twice -/
+def PreOnce (m : MapObj) (op : String) (R : List (Nat × Nat)) : Prop :=
+  (cellOp m op).1 = none ∨ (expand R).Nodup
+
+/-- every coverage pixel the slice path allocates holds a pixel of some row -/
+def Tight (c : Cfg) (s : State Val) (R : List (Nat × Nat)) : Prop :=
+  ∀ k ∈ rangeNewCov c s R, touchedCov c R k = true
+
+/-- content equality of two states (the body of `C10.Same`, which lives downstream of this file) -/
+def SameState (c : Cfg) (vc : VCfg Val) (s₁ s₂ : State Val) : Prop :=
+  Inv c vc s₁ ∧ Inv c vc s₂ ∧
+  (∀ p, p < c.npix → abs c vc s₁ p = abs c vc s₂ p) ∧
+  (∀ k, k < c.ncov → covered c s₁ k = covered c s₂ k)
+
+variable {m : MapObj} {op : String} {R : List (Nat × Nat)} {val : Option Val}
+
+/-- **(1) error agreement, partial.**  For a well-formed map, rows with start ≤ end of which at
+    least one holds a pixel (or no rows), no forbidden write through a view, and the pre-pass
+    met once per pixel (or a non-float map): the slice path raises iff the expansion path does.
+    Each hypothesis is necessary (counterexamples below). -/
+theorem api_ranges_error_iff_partial (h : m.WF) (hord : RowsOrdered R) (hsome : SomePixel R)
+    (hview : ViewOk m R) (hpre : PreOnce m op R ∨ ∀ b, m.kind ≠ .plain (.flt b)) :
+    (∃ e, apiUpdateRanges m op R val true = .error e) ↔
+    (∃ e, apiUpdateRanges m op R val false = .error e) := by
+  cases hfe : frontErr m op val.isNone with
+  | some e => rw [ranges_front_err hfe, ranges_front_err hfe]
+  | none =>
+    by_cases hne : R = []
+    · subst hne
+      rw [ranges_nil hfe, ranges_nil hfe]
+    · by_cases hin : ∀ ab ∈ R, ab.2 ≤ m.npix
+      · have hR : ∀ ab ∈ R, ab.1 ≤ ab.2 ∧ ab.2 ≤ m.npix := fun ab hab => ⟨hord ab hab, hin ab hab⟩
+        have hex : expand R ≠ [] := hsome.resolve_left hne
+        rw [slice_regular hfe hne hR, expand_regular hfe hin hex hview]
+        have hfit := slice_expand_fit (op := op) (val := val) h hR
+          (by rcases hpre with (h1 | h1) | h1
+              · exact Or.inl h1
+              · exact Or.inr (Or.inl h1)
+              · exact Or.inr (Or.inr h1))
+        rw [rangesOutcome_eq, rangesOutcome_eq, hfit]
+        cases rangesErr m op R val (floatCellsFit m.kind (expandSt m op R val).sp) with
+        | some e => exact ⟨fun _ => ⟨e, rfl⟩, fun _ => ⟨e, rfl⟩⟩
+        | none => constructor <;> rintro ⟨_, he⟩ <;> cases he
+      · have hbad : ∃ ab ∈ R, ab.2 > m.npix := by
+          apply Classical.byContradiction
+          intro hc
+          apply hin
+          intro ab hab
+          have : ¬ (ab.2 > m.npix) := fun hx => hc ⟨ab, hab, hx⟩
+          omega
+        obtain ⟨e', _, he'⟩ := expand_beyond (val := val) hfe hbad
+        have hbad' : ∃ ab ∈ R, ab.2 > m.npix ∨ ab.1 > ab.2 :=
+          hbad.imp fun ab hab => ⟨hab.1, Or.inl hab.2⟩
+        rw [slice_irregular hfe hbad', he']
+        exact ⟨fun _ => raise3 _ _ _, fun _ => raise3 _ _ _⟩
+
+/-- **(1') error kinds, partial.**  When both paths raise (rows ordered, no forbidden write
+    through a view) they raise the same error, except for a row beyond the sphere: there the
+    slice path answers IndexError while the expansion path first runs `update_values_pix` on
+    pixel 0 and may answer with what that raises. -/
+theorem api_ranges_error_kind_partial (hord : RowsOrdered R) (hview : ViewOk m R) {e₁ e₂ : Err}
+    (h1 : apiUpdateRanges m op R val true = .error e₁)
+    (h2 : apiUpdateRanges m op R val false = .error e₂) :
+    e₁ = e₂ ∨ ((∃ ab ∈ R, ab.2 > m.npix) ∧ e₁ = .index ∧ (e₂ = .runtime ∨ e₂ = .inexact)) := by
+  cases hfe : frontErr m op val.isNone with
+  | some e =>
+    rw [ranges_front_err hfe] at h1 h2
+    cases h1; cases h2
+    exact Or.inl rfl
+  | none =>
+    by_cases hne : R = []
+    · subst hne
+      rw [ranges_nil hfe] at h1
+      cases h1
+    · by_cases hin : ∀ ab ∈ R, ab.2 ≤ m.npix
+      · have hR : ∀ ab ∈ R, ab.1 ≤ ab.2 ∧ ab.2 ≤ m.npix := fun ab hab => ⟨hord ab hab, hin ab hab⟩
+        by_cases hex : expand R = []
+        · rw [expand_empty hfe hin hex] at h2
+          cases h2
+        · left
+          rw [slice_regular hfe hne hR] at h1
+          rw [expand_regular hfe hin hex hview] at h2
+          exact rangesErr_kind (rangesOutcome_error h1) (rangesOutcome_error h2)
+      · have hbad : ∃ ab ∈ R, ab.2 > m.npix := by
+          apply Classical.byContradiction
+          intro hc
+          apply hin
+          intro ab hab
+          have : ¬ (ab.2 > m.npix) := fun hx => hc ⟨ab, hab, hx⟩
+          omega
+        obtain ⟨e', he'1, he'⟩ := expand_beyond (val := val) hfe hbad
+        have hbad' : ∃ ab ∈ R, ab.2 > m.npix ∨ ab.1 > ab.2 :=
+          hbad.imp fun ab hab => ⟨hab.1, Or.inl hab.2⟩
+        rw [slice_irregular hfe hbad'] at h1
+        rw [he'] at h2
+        split at h1
+        · rw [if_pos ‹_›] at h2
+          cases h1; cases h2; exact Or.inl rfl
+        · rw [if_neg ‹_›] at h2
+          split at h1
+          · rw [if_pos ‹_›] at h2
+            cases h1; cases h2; exact Or.inl rfl
+          · rw [if_neg ‹_›] at h2
+            cases h1; cases h2
+            rcases he'1 with rfl | rfl | rfl
+            · exact Or.inl rfl
+            · exact Or.inr ⟨hbad, rfl, Or.inl rfl⟩
+            · exact Or.inr ⟨hbad, rfl, Or.inr rfl⟩
+
+/-- **(2) the results agree, partial.**  When both paths succeed on a well-formed map and the
+    pre-pass is met once per pixel: same configuration, kind, sentinel, cache (reset) and view
+    flag, both results well formed, the same value at every pixel, and the slice path's
+    coverage contains the expansion path's.  (Coverage EQUALITY is false in general, see
+    `api_ranges_same_partial` and the counterexample below.) -/
+theorem api_ranges_agree_partial {m₁ m₂ : MapObj} (h : m.WF) (hpre : PreOnce m op R)
+    (h1 : apiUpdateRanges m op R val true = .ok m₁)
+    (h2 : apiUpdateRanges m op R val false = .ok m₂) :
+    m₁.covord = m₂.covord ∧ m₁.spord = m₂.spord ∧ m₁.kind = m₂.kind ∧ m₁.sent = m₂.sent ∧
+    m₁.cache = m₂.cache ∧ m₁.view = m₂.view ∧ m₁.WF ∧ m₂.WF ∧
+    (∀ p, p < m.npix → m₁.abs p = m₂.abs p) ∧
+    (∀ k, k < m.c.ncov → covered m.c m₂.st k = true → covered m.c m₁.st k = true) := by
+  have w1 := WF.apiUpdateRanges h h1
+  have w2 := WF.apiUpdateRanges h h2
+  obtain ⟨_, hR, rfl⟩ := slice_ok h1
+  obtain ⟨_, hin, _, rfl⟩ := expand_ok h2
+  refine ⟨rfl, rfl, rfl, rfl, rfl, rfl, w1, w2, fun p hp => slice_expand_abs h hR hpre p hp,
+    fun k hk hc => ?_⟩
+  show covered m.c (sliceSt m op R val) k = true
+  have hc' : covered m.c (expandSt m op R val) k = true := hc
+  rw [expandSt_covered h hin k hk] at hc'
+  rw [sliceSt_covered h hR k hk]
+  cases hck : covered m.c m.st k with
+  | true => rfl
+  | false =>
+    rw [hck] at hc'
+    simp only [Bool.false_or, Bool.and_eq_true] at hc' ⊢
+    exact ⟨hc'.1, decide_eq_true (touched_sub_rangeCov m.c m.st R hR k hk hck hc'.2)⟩
+
+/-- **(2') content equality, partial.**  If moreover the update is a clear, or every coverage
+    pixel the slice path allocates holds a pixel of some row (`Tight`), the two results are
+    content-equal states (`C10.Same`). -/
+theorem api_ranges_same_partial {m₁ m₂ : MapObj} (h : m.WF) (hpre : PreOnce m op R)
+    (ht : val = none ∨ Tight m.c m.st R)
+    (h1 : apiUpdateRanges m op R val true = .ok m₁)
+    (h2 : apiUpdateRanges m op R val false = .ok m₂) :
+    SameState m.c m.vc m₁.st m₂.st := by
+  obtain ⟨_, _, _, _, _, _, w1, w2, hab, hcov⟩ := api_ranges_agree_partial h hpre h1 h2
+  obtain ⟨_, hR, rfl⟩ := slice_ok h1
+  obtain ⟨_, hin, _, rfl⟩ := expand_ok h2
+  refine ⟨w1.2, w2.2, hab, fun k hk => ?_⟩
+  show covered m.c (sliceSt m op R val) k = covered m.c (expandSt m op R val) k
+  rw [sliceSt_covered h hR k hk, expandSt_covered h hin k hk]
+  rcases ht with rfl | ht
+  · rfl
+  · cases hck : covered m.c m.st k with
+    | true => rfl
+    | false =>
+      congr 2
+      by_cases hm : k ∈ rangeNewCov m.c m.st R
+      · rw [ht k hm]; exact decide_eq_true hm
+      · rw [decide_eq_false hm]
+        symm
+        rw [Bool.eq_false_iff]
+        intro htc
+        exact hm (touched_sub_rangeCov m.c m.st R hR k hk hck htc)
+
+/-- a sufficient arithmetic condition for `Tight`: every row holds a pixel and does not end on
+    a block edge, except at the end of the sphere -/
+theorem tight_of_offedge (c : Cfg) (s : State Val) (R : List (Nat × Nat))
+    (hR : ∀ ab ∈ R, ab.1 < ab.2 ∧ ab.2 ≤ c.npix ∧ (ab.2 % c.nfine ≠ 0 ∨ ab.2 = c.npix)) :
+    Tight c s R := touched_of_offedge c s R hR
+
+/-- **(3a) what the slice path computes.**  On success every pixel holds the cell effect
+    `cellEffect pre f w` applied once per row containing it, in row order (nothing under a
+    clear of an uncovered pixel); the coverage grows by EVERY coverage pixel between the one
+    holding a row's start and the one holding its exclusive end (`rangeNewCov`) — also for
+    empty rows and for rows ending on a block edge; none for a clear. -/
+theorem api_ranges_slice_spec {m₁ : MapObj} (h : m.WF)
+    (h1 : apiUpdateRanges m op R val true = .ok m₁) :
+    (∀ p, p < m.npix → m₁.abs p =
+      if (val.isNone && !covered m.c m.st (p >>> m.c.shift)) = true then m.abs p
+      else R.foldl (fun x ab => if ab.1 ≤ p ∧ p < ab.2
+              then cellEffect (cellOp m op).1 (cellOp m op).2 (rangesW m val) x else x) (m.abs p)) ∧
+    (∀ k, k < m.c.ncov → covered m.c m₁.st k =
+      (covered m.c m.st k || (!val.isNone && decide (k ∈ rangeNewCov m.c m.st R)))) := by
+  obtain ⟨_, hR, rfl⟩ := slice_ok h1
+  refine ⟨fun p hp => ?_, fun k hk => sliceSt_covered h hR k hk⟩
+  show abs m.c m.vc (sliceSt m op R val) p = _
+  rw [sliceSt_abs h hR p hp]
+  unfold denseUpdate
+  rw [denseFold_expand _ R (fun ab hab => (hR ab hab).1)]
+
+/-- **(3b) what the expansion path computes.**  On success every pixel holds the dense fold
+    of the staged operation (pre-pass over all addressed pixels, then the operation once per
+    occurrence) and the coverage grows by exactly the coverage pixels holding a pixel of some
+    row (none for a clear). -/
+theorem api_ranges_expand_spec {m₂ : MapObj} (h : m.WF)
+    (h2 : apiUpdateRanges m op R val false = .ok m₂) :
+    (∀ p, p < m.npix → m₂.abs p =
+      denseUpdate m.c m.abs (covered m.c m.st)
+        (stageOp ((cellOp m op).1.getD id) (cellOp m op).2)
+        (stageList (cellOp m op).1.isSome ((expand R).map fun q => (q, rangesW m val)))
+        val.isNone p) ∧
+    (∀ k, k < m.c.ncov → covered m.c m₂.st k =
+      (covered m.c m.st k || (!val.isNone && touchedCov m.c R k))) := by
+  obtain ⟨_, hin, _, rfl⟩ := expand_ok h2
+  exact ⟨fun p hp => expandSt_abs h hin p hp, fun k hk => expandSt_covered h hin k hk⟩
+
+/-- (3b, row form) with the pre-pass met once per pixel the expansion path computes the same
+    row-by-row fold as the slice path -/
+theorem api_ranges_expand_rows_partial {m₂ : MapObj} (h : m.WF) (hord : RowsOrdered R)
+    (hpre : PreOnce m op R) (h2 : apiUpdateRanges m op R val false = .ok m₂) (p : Nat)
+    (hp : p < m.npix) :
+    m₂.abs p =
+      if (val.isNone && !covered m.c m.st (p >>> m.c.shift)) = true then m.abs p
+      else R.foldl (fun x ab => if ab.1 ≤ p ∧ p < ab.2
+              then cellEffect (cellOp m op).1 (cellOp m op).2 (rangesW m val) x else x) (m.abs p) := by
+  obtain ⟨_, hin, _, rfl⟩ := expand_ok h2
+  have hR : ∀ ab ∈ R, ab.1 ≤ ab.2 ∧ ab.2 ≤ m.npix := fun ab hab => ⟨hord ab hab, hin ab hab⟩
+  show abs m.c m.vc (expandSt m op R val) p = _
+  rw [← slice_expand_abs h hR hpre p hp, sliceSt_abs h hR p hp]
+  unfold denseUpdate
+  rw [denseFold_expand _ R hord]
+
+/-- **the two paths are indistinguishable, partial** (the headline, combining (1), (1'), (2')):
+    on a well-formed map, for rows with start ≤ end of which one holds a pixel (or no rows), no
+    forbidden write through a view, the pre-pass met once per pixel, and a clear or rows that
+    make the slice path allocate nothing extra — either both paths raise (the same error, up to
+    the row-beyond-the-sphere case) or both succeed with the same fields and content-equal
+    states. -/
+theorem api_ranges_indistinguishable_partial (h : m.WF) (hord : RowsOrdered R)
+    (hsome : SomePixel R) (hview : ViewOk m R) (hpre : PreOnce m op R)
+    (ht : val = none ∨ Tight m.c m.st R) :
+    match apiUpdateRanges m op R val true, apiUpdateRanges m op R val false with
+    | .ok m₁, .ok m₂ =>
+        m₁.covord = m₂.covord ∧ m₁.spord = m₂.spord ∧ m₁.kind = m₂.kind ∧ m₁.sent = m₂.sent ∧
+        m₁.cache = m₂.cache ∧ m₁.view = m₂.view ∧ m₁.WF ∧ m₂.WF ∧
+        SameState m.c m.vc m₁.st m₂.st
+    | .error e₁, .error e₂ =>
+        e₁ = e₂ ∨ ((∃ ab ∈ R, ab.2 > m.npix) ∧ e₁ = .index ∧ (e₂ = .runtime ∨ e₂ = .inexact))
+    | _, _ => False := by
+  have hiff := api_ranges_error_iff_partial (op := op) (val := val) h hord hsome hview (Or.inl hpre)
+  cases h1 : apiUpdateRanges m op R val true with
+  | ok m₁ =>
+    cases h2 : apiUpdateRanges m op R val false with
+    | ok m₂ =>
+      obtain ⟨a1, a2, a3, a4, a5, a6, a7, a8, _, _⟩ := api_ranges_agree_partial h hpre h1 h2
+      exact ⟨a1, a2, a3, a4, a5, a6, a7, a8, api_ranges_same_partial h hpre ht h1 h2⟩
+    | error e₂ =>
+      obtain ⟨e, he⟩ := hiff.2 ⟨e₂, h2⟩
+      rw [h1] at he
+      cases he
+  | error e₁ =>
+    cases h2 : apiUpdateRanges m op R val false with
+    | ok m₂ =>
+      obtain ⟨e, he⟩ := hiff.1 ⟨e₁, h1⟩
+      rw [h2] at he
+      cases he
+    | error e₂ => exact api_ranges_error_kind_partial hord hview h1 h2
+
+/-! ## `update_values_pix` itself against the dense specification -/
+
+/-- **one call.**  A successful `apiUpdate` on a well-formed map changes the dense view exactly
+    as the dense update does: the staged operation `cellOp m op` (for `add` over a non-zero
+    sentinel a pre-pass resetting addressed sentinel cells to 0, then the additions) folded over
+    the pairs `updPv` = `pix.zip vals` (`pix × {v}` for a single value, `pix × {clear value}`
+    with `no_append` for `None`) in call order; the coverage is the dense coverage; everything
+    but the storage and the (reset) cache is kept and the result is well formed. -/
+theorem api_update_refines {m m' : MapObj} {op : String} {pix : List Nat}
+    {vals : Option (List Val)} {single : Bool} {ru : Option Bool} (h : m.WF)
+    (hr : apiUpdate m op pix vals single ru = .ok m') :
+    m'.WF ∧ m'.covord = m.covord ∧ m'.spord = m.spord ∧ m'.kind = m.kind ∧ m'.sent = m.sent ∧
+    m'.view = m.view ∧ m'.cache = none ∧
+    (∀ p, p < m.npix → m'.abs p =
+      denseUpdate m.c m.abs (covered m.c m.st)
+        (stageOp ((cellOp m op).1.getD id) (cellOp m op).2)
+        (stageList (cellOp m op).1.isSome (updPv m pix vals single)) vals.isNone p) ∧
+    (∀ k, k < m.c.ncov → covered m.c m'.st k =
+      denseCov m.c (covered m.c m.st) (updPv m pix vals single) vals.isNone k) := by
+  have w' := WF.apiUpdate h hr
+  obtain ⟨_, hlt, rfl⟩ := apiUpdate_ok hr
+  have hpv : ∀ qw ∈ updPv m pix vals single, qw.1 < m.c.npix :=
+    fun qw hq => hlt _ (updPv_fst_mem hq)
+  exact ⟨w', rfl, rfl, rfl, rfl, rfl, rfl,
+    fun p hp => updatePix_refines m.c m.vc m.st _ _ _ _ h.2 hpv p hp,
+    fun k hk => updatePix_covered m.c m.vc m.st _ _ _ _ h.2 hpv k hk⟩
+
+/-- one `update_values_pix` call of a history -/
+structure ApiUpd where
+  op : String
+  pix : List Nat
+  vals : Option (List Val)
+  single : Bool
+
+/-- run a history of calls, stopping at the first error -/
+def apiHist (m : MapObj) : List ApiUpd → Except Err MapObj
+  | [] => .ok m
+  | u :: us =>
+    match apiUpdate m u.op u.pix u.vals u.single with
+    | .ok m' => apiHist m' us
+    | .error e => .error e
+
+/-- the dense operation a call stands for (it depends on the map only through its kind and
+    sentinel, which no call changes) -/
+def ApiUpd.toOp (m : MapObj) (u : ApiUpd) : C01.UpdOp Val :=
+  ⟨Option Val, stageOp ((cellOp m u.op).1.getD id) (cellOp m u.op).2,
+    stageList (cellOp m u.op).1.isSome (updPv m u.pix u.vals u.single), u.vals.isNone⟩
+
+theorem apiHist_ok {m m' : MapObj} {us : List ApiUpd} (hr : apiHist m us = .ok m') :
+    m'.covord = m.covord ∧ m'.spord = m.spord ∧ m'.kind = m.kind ∧ m'.sent = m.sent ∧
+    m'.st = C01.runHist m.c m.vc m.st (us.map (ApiUpd.toOp m)) ∧
+    ∀ o ∈ us.map (ApiUpd.toOp m), o.inRange m.c := by
+  induction us generalizing m with
+  | nil => cases hr; exact ⟨rfl, rfl, rfl, rfl, rfl, fun _ ho => (nomatch ho)⟩
+  | cons u us ih =>
+    unfold apiHist at hr
+    split at hr
+    · rename_i m₁ h1
+      obtain ⟨_, hlt, rfl⟩ := apiUpdate_ok h1
+      obtain ⟨i1, i2, i3, i4, i5, i6⟩ := ih hr
+      refine ⟨i1, i2, i3, i4, i5, ?_⟩
+      intro o ho
+      rcases List.mem_cons.1 ho with rfl | ho
+      · exact stageList_lt _ _ fun qw hq => hlt _ (updPv_fst_mem hq)
+      · exact i6 o ho
+    · cases hr
+
+/-- **every history of calls.**  After any sequence of successful `apiUpdate` calls on a
+    well-formed map the result is well formed, every pixel reads what the dense array holds
+    and the coverage mask is the dense coverage (`C01.history_refines` at the API level). -/
+theorem api_history_refines {m m' : MapObj} {us : List ApiUpd} (h : m.WF)
+    (hr : apiHist m us = .ok m') :
+    m'.WF ∧
+    (∀ p, p < m.npix → m'.abs p =
+      (C01.denseHist m.c (m.abs, covered m.c m.st) (us.map (ApiUpd.toOp m))).1 p) ∧
+    (∀ k, k < m.c.ncov → covered m.c m'.st k =
+      (C01.denseHist m.c (m.abs, covered m.c m.st) (us.map (ApiUpd.toOp m))).2 k) := by
+  obtain ⟨h1, h2, h3, h4, h5, h6⟩ := apiHist_ok hr
+  obtain ⟨g1, g2, g3⟩ := C01.history_refines m.c m.vc m.st h.2 _ h6
+  have hc : m'.c = m.c := by unfold MapObj.c; rw [h1, h2]
+  have hvc : m'.vc = m.vc := by unfold MapObj.vc; rw [h3, h4]
+  refine ⟨⟨by rw [h1, h2]; exact h.1, by rw [hc, hvc, h5]; exact g1⟩, fun p hp => ?_, fun k hk => ?_⟩
+  · show abs m'.c m'.vc m'.st p = _
+    rw [hc, hvc, h5]
+    exact g2 p hp
+  · rw [h5]
+    exact g3 k hk
+
+/-! ## The driver: an update that raises stores nothing -/
+
+/-- **`upd` / `updr` answering anything but `ok`** (`err …`, `inexact`, `bad-op…`) in a world
+    reachable by any protocol history: every name — the addressed map, its parent or its views,
+    every other map — still resolves, to a map with the same configuration, kind, sentinel,
+    arrays (hence the same `abs` at every pixel) and view flag; only the `n_valid` cache of the
+    addressed map is reset. -/
+theorem upd_error_stores_nothing (lines : List String) (a : Args) (updr : Bool)
+    (hne : (if updr then opUpdr (runLines lines) a else opUpd (runLines lines) a).2 ≠ "ok")
+    (x : String) :
+    ∀ m', (if updr then opUpdr (runLines lines) a else opUpd (runLines lines) a).1.get? x = some m' →
+      ∃ m, (runLines lines).get? x = some m ∧ m'.abs = m.abs ∧ m'.st = m.st ∧
+        m'.covord = m.covord ∧ m'.spord = m.spord ∧ m'.kind = m.kind ∧ m'.sent = m.sent ∧
+        m'.view = m.view := by
+  intro m' hm'
+  have hw := Good.runLines lines
+  have hs : SameMaps (if updr then opUpdr (runLines lines) a else opUpd (runLines lines) a).1
+      (runLines lines) := by
+    cases updr with
+    | true => exact opUpdr_not_ok hw a hne
+    | false => exact opUpd_not_ok hw a hne
+  have hx := hs x
+  rw [hm'] at hx
+  cases hg : (runLines lines).get? x with
+  | none => rw [hg] at hx; cases hx
+  | some m =>
+    rw [hg] at hx
+    simp only [Option.map_some, Option.some.injEq] at hx
+    refine ⟨m, rfl, ?_⟩
+    obtain ⟨co, so, k, se, st, ca, vi⟩ := m
+    obtain ⟨co', so', k', se', st', ca', vi'⟩ := m'
+    simp only [forgetCache, MapObj.mk.injEq] at hx
+    obtain ⟨rfl, rfl, rfl, rfl, rfl, _, rfl⟩ := hx
+    exact ⟨rfl, rfl, rfl, rfl, rfl, rfl, rfl⟩
+
+/-- and conversely no name appears -/
+theorem upd_error_no_new_map (lines : List String) (a : Args)
+    (hne : (opUpd (runLines lines) a).2 ≠ "ok") (x : String)
+    (h : (runLines lines).get? x = none) : (opUpd (runLines lines) a).1.get? x = none := by
+  have hx := opUpd_not_ok (Good.runLines lines) a hne x
+  rw [h] at hx
+  cases hg : (opUpd (runLines lines) a).1.get? x with
+  | none => rfl
+  | some m => rw [hg] at hx; cases hx
+
+/-! ## Non-vacuity and counterexamples (API level) -/
+
+open WFApi (okAnd)
+
+instance (R : List (Nat × Nat)) : Decidable (RowsOrdered R) := by unfold RowsOrdered; infer_instance
+instance (R : List (Nat × Nat)) : Decidable (SomePixel R) := by unfold SomePixel; infer_instance
+instance (m : MapObj) (R : List (Nat × Nat)) : Decidable (ViewOk m R) := by unfold ViewOk; infer_instance
+instance (m : MapObj) (op : String) (R : List (Nat × Nat)) : Decidable (PreOnce m op R) :=
+  decidable_of_iff ((cellOp m op).1.isNone = true ∨ (expand R).Nodup) (by
+    unfold PreOnce; rw [Option.isNone_iff_eq_none])
+instance (c : Cfg) (s : State Val) (R : List (Nat × Nat)) : Decidable (Tight c s R) := by
+  unfold Tight; infer_instance
+instance (c : Cfg) (vc : VCfg Val) (s₁ s₂ : State Val) : Decidable (SameState c vc s₁ s₂) := by
+  unfold SameState; infer_instance
+
+def isErr {α : Type} : Except Err α → Bool
+  | .error _ => true
+  | .ok _ => false
+
+def errIs {α : Type} (e : Err) : Except Err α → Bool
+  | .error e' => e' == e
+  | .ok _ => false
+
+/-- an int64 map (12 coverage pixels × 4 cells, default sentinel -2^63), pixels 1 and 9 set -/
+def exMap : Except Err MapObj := do
+  let m ← apiMakeEmpty 0 1 (.plain (.int 64 true)) none []
+  apiUpdate m "replace" [1, 9] (some [.num 3 0, .num 4 0]) false
+
+/-- the same with sentinel 0 (so that `add` has no pre-pass) -/
+def exMap0 : Except Err MapObj := do
+  let m ← apiMakeEmpty 0 1 (.plain (.int 64 true)) (some (.num 0 0)) []
+  apiUpdate m "replace" [1, 9] (some [.num 3 0, .num 4 0]) false
+
+/-- all hypotheses of (1), (2), (2') hold and both paths succeed with content-equal results:
+    shuffled rows, one ending at `npix`, one crossing a block edge (`replace`) -/
+example : okAnd exMap (fun m =>
+    let R := [(44, 48), (2, 6)]
+    decide m.WF && decide (RowsOrdered R) && decide (SomePixel R) && decide (ViewOk m R) &&
+    decide (PreOnce m "replace" R) && decide (Tight m.c m.st R) &&
+    okAnd (apiUpdateRanges m "replace" R (some (.num 7 0)) true) fun m₁ =>
+    okAnd (apiUpdateRanges m "replace" R (some (.num 7 0)) false) fun m₂ =>
+      decide (SameState m.c m.vc m₁.st m₂.st) && m₁.abs 5 == .num 7 0 && m₁.abs 1 == .num 3 0) = true := by
+  decide +kernel
+
+/-- overlapping and touching rows with `add` over a zero sentinel (no pre-pass): pixel 4 and 5
+    receive the value twice on both paths -/
+example : okAnd exMap0 (fun m =>
+    let R := [(0, 6), (4, 9), (9, 11)]
+    decide m.WF && decide (PreOnce m "add" R) && decide (Tight m.c m.st R) &&
+    okAnd (apiUpdateRanges m "add" R (some (.num 5 0)) true) fun m₁ =>
+    okAnd (apiUpdateRanges m "add" R (some (.num 5 0)) false) fun m₂ =>
+      decide (SameState m.c m.vc m₁.st m₂.st) && m₁.abs 4 == .num 10 0 && m₁.abs 1 == .num 8 0 &&
+      m₁.abs 9 == .num 9 0 && m₂.abs 5 == .num 10 0) = true := by
+  decide +kernel
+
+/-- a clear (`None`) over rows reaching into uncovered coverage pixels: nothing is allocated,
+    pixel 1 is reset, both paths content-equal -/
+example : okAnd exMap (fun m =>
+    let R := [(0, 4), (20, 24)]
+    okAnd (apiUpdateRanges m "replace" R none true) fun m₁ =>
+    okAnd (apiUpdateRanges m "replace" R none false) fun m₂ =>
+      decide (SameState m.c m.vc m₁.st m₂.st) && m₁.abs 1 == m.sent && !covered m.c m₁.st 5) = true := by
+  decide +kernel
+
+/-- both raise for a row beyond the sphere, a bad operation name, `None` with `add` -/
+example : okAnd exMap (fun m =>
+    errIs .index (apiUpdateRanges m "replace" [(40, 49)] (some (.num 7 0)) true) &&
+    errIs .index (apiUpdateRanges m "replace" [(40, 49)] (some (.num 7 0)) false) &&
+    errIs .value (apiUpdateRanges m "xor" [(0, 2)] (some (.num 7 0)) true) &&
+    errIs .value (apiUpdateRanges m "xor" [(0, 2)] (some (.num 7 0)) false) &&
+    errIs .value (apiUpdateRanges m "add" [(0, 2)] none true) &&
+    errIs .value (apiUpdateRanges m "add" [(0, 2)] none false)) = true := by
+  decide +kernel
+
+/-- **counterexample to coverage equality (hypothesis `Tight` of (2'))**: a row ending on a
+    block edge, `[0, 4)` with 4 cells per coverage pixel.  Both paths succeed with the same
+    values, but the slice path also allocates coverage pixel 1 (no pixel of the row lies in it);
+    the expansion path allocates coverage pixel 0 only.  Same for an empty row `[5, 5)`. -/
+example : okAnd exMap (fun m =>
+    okAnd (apiUpdateRanges m "replace" [(12, 16)] (some (.num 7 0)) true) fun m₁ =>
+    okAnd (apiUpdateRanges m "replace" [(12, 16)] (some (.num 7 0)) false) fun m₂ =>
+      !decide (Tight m.c m.st [(12, 16)]) && !decide (SameState m.c m.vc m₁.st m₂.st) &&
+      covered m.c m₁.st 3 && covered m.c m₁.st 4 && covered m.c m₂.st 3 && !covered m.c m₂.st 4) = true ∧
+    okAnd exMap (fun m =>
+    okAnd (apiUpdateRanges m "replace" [(21, 21)] (some (.num 7 0)) true) fun m₁ =>
+    okAnd (apiUpdateRanges m "replace" [(21, 21)] (some (.num 7 0)) false) fun m₂ =>
+      covered m.c m₁.st 5 && !covered m.c m₂.st 5) = true := by
+  decide +kernel
+
+/-- **counterexample to (1) without `RowsOrdered`**: a row with start > end, `[5, 3)`: the slice
+    path raises IndexError, the expansion path ignores the row and succeeds -/
+example : okAnd exMap (fun m =>
+    errIs .index (apiUpdateRanges m "replace" [(5, 3), (20, 22)] (some (.num 7 0)) true) &&
+    okAnd (apiUpdateRanges m "replace" [(5, 3), (20, 22)] (some (.num 7 0)) false) fun m₂ =>
+      m₂.abs 20 == .num 7 0) = true := by
+  decide +kernel
+
+/-- **counterexamples to (1) without `SomePixel`**: only empty rows.  The expansion path
+    returns at its empty-input test; the slice path still validates: a repeated empty row with
+    `replace` (raw-array uniqueness), a value of the wrong type -/
+example : okAnd exMap (fun m =>
+    errIs .value (apiUpdateRanges m "replace" [(3, 3), (3, 3)] (some (.num 7 0)) true) &&
+    !isErr (apiUpdateRanges m "replace" [(3, 3), (3, 3)] (some (.num 7 0)) false) &&
+    errIs .value (apiUpdateRanges m "replace" [(3, 3)] (some (.bool true)) true) &&
+    !isErr (apiUpdateRanges m "replace" [(3, 3)] (some (.bool true)) false)) = true := by
+  decide +kernel
+
+/-- a record map with one valid pixel and the view of its primary field -/
+def exViewMap : Except Err MapObj := do
+  let p ← apiMakeEmpty 0 1 (.recd [.int 64 true, .flt 64] 0) none []
+  let p ← apiUpdate p "replace" [0] (some [.recd [(3, 0), (1, 1)]]) false
+  materializeView p "p" 0 p.sent none
+
+/-- **counterexample to (1) without `ViewOk`**: through a record-field view the expansion
+    path refuses to make pixel 1 valid (RuntimeError); the slice path does it -/
+example : okAnd exViewMap (fun v =>
+    decide v.WF && v.view.isSome && !decide (ViewOk v [(0, 2)]) &&
+    errIs .runtime (apiUpdateRanges v "replace" [(0, 2)] (some (.num 7 0)) false) &&
+    okAnd (apiUpdateRanges v "replace" [(0, 2)] (some (.num 7 0)) true) fun v₁ =>
+      v₁.abs 1 == .num 7 0 && v.abs 1 == v.sent) = true := by
+  decide +kernel
+
+/-- an int64 map with sentinel 5 -/
+def exMap5 : Except Err MapObj := apiMakeEmpty 0 1 (.plain (.int 64 true)) (some (.num 5 0)) []
+
+/-- **counterexample to (2) without `PreOnce`**: `add` of 5 over a map with sentinel 5, the
+    row `[0, 1)` given twice.  Expansion path: pre-pass 5 ↦ 0, then +5 +5 = 10.  Slice path:
+    row one gives 0 + 5 = 5 — the sentinel — which row two resets to 0 again: 5 (unset). -/
+example : okAnd exMap5 (fun m =>
+    !decide (PreOnce m "add" [(0, 1), (0, 1)]) &&
+    okAnd (apiUpdateRanges m "add" [(0, 1), (0, 1)] (some (.num 5 0)) true) fun m₁ =>
+    okAnd (apiUpdateRanges m "add" [(0, 1), (0, 1)] (some (.num 5 0)) false) fun m₂ =>
+      m₁.abs 0 == .num 5 0 && m₂.abs 0 == .num 10 0) = true := by
+  decide +kernel
+
+/-- a float32 map with sentinel 2^24 and pixel 0 = 2^24 - 1 -/
+def exMapF : Except Err MapObj := do
+  let m ← apiMakeEmpty 0 1 (.plain (.flt 32)) (some (.num 16777216 0)) []
+  apiUpdate m "replace" [0] (some [.num 16777215 0]) false
+
+/-- counterexample to (1) without `PreOnce` on a float map (model level: `inexact` marks a sum
+    float32 would round): the same doubled row makes the expansion path reach 2^24 + 1
+    (`inexact`) while the slice path passes through the sentinel and ends at 1.  And the error
+    KIND for a row beyond the sphere: IndexError (slice) vs what pixel 0 raises (expansion). -/
+example : okAnd exMapF (fun m =>
+    !isErr (apiUpdateRanges m "add" [(0, 1), (0, 1)] (some (.num 1 0)) true) &&
+    errIs .inexact (apiUpdateRanges m "add" [(0, 1), (0, 1)] (some (.num 1 0)) false) &&
+    errIs .index (apiUpdateRanges m "add" [(10, 49)] (some (.num 2 0)) true) &&
+    errIs .inexact (apiUpdateRanges m "add" [(10, 49)] (some (.num 2 0)) false)) = true := by
+  decide +kernel
+
+/-- `api_update_refines`, `api_history_refines`: a two-call history with a repeated pixel -/
+example : okAnd exMap0 (fun m =>
+    okAnd (apiHist m [⟨"add", [1, 1, 5], some [.num 2 0], true⟩, ⟨"replace", [9], none, true⟩]) fun m' =>
+      decide m'.WF && m'.abs 1 == .num 7 0 && m'.abs 5 == .num 2 0 && m'.abs 9 == .num 0 0) = true := by
+  decide +kernel
+
+/-- protocol level: the outputs of a history -/
+def replay (lines : List String) : List String :=
+  (lines.foldl (fun (wo : World × List String) l =>
+    let r := step wo.1 l; (r.1, wo.2 ++ [r.2])) ({}, [])).2
+
+/-! the coverage difference, the start > end difference, the view difference and the
+    repeated-pre-pass difference as protocol histories (`covmask` / `get` observe them) -/
+#guard replay ["cfg a kind=plain dtype=i8 covord=0 spord=1", "cfg b kind=plain dtype=i8 covord=0 spord=1",
+    "updr a ranges=0:4 val=5 path=slice", "updr b ranges=0:4 val=5 path=expand", "covmask a", "covmask b"]
+  == ["ok", "ok", "ok", "ok", "110000000000", "100000000000"]
+#guard replay ["cfg a kind=plain dtype=i8 covord=0 spord=1", "cfg b kind=plain dtype=i8 covord=0 spord=1",
+    "updr a ranges=5:3 val=5 path=slice", "updr b ranges=5:3 val=5 path=expand"]
+  == ["ok", "ok", "err IndexError", "ok"]
+#guard replay ["cfg m kind=rec fields=i8,f8 primary=0 covord=0 spord=1", "upd m pix=0 val=r3;1",
+    "single m field=0 r=v", "updr v ranges=0:2 val=7 path=expand", "get m pix=0,1",
+    "updr v ranges=0:2 val=7 path=slice", "get m pix=0,1"]
+  == ["ok", "ok", "ok", "err RuntimeError",
+      "r3;1,r-9223372036854775808;-1637499999999999923489519697920",
+      "ok", "r7;1,r7;-1637499999999999923489519697920"]
+#guard replay ["cfg a kind=plain dtype=i8 covord=0 spord=1 sentinel=5", "cfg b kind=plain dtype=i8 covord=0 spord=1 sentinel=5",
+    "updr a ranges=0:1,0:1 val=5 op=add path=slice", "updr b ranges=0:1,0:1 val=5 op=add path=expand",
+    "get a pix=0", "get b pix=0"]
+  == ["ok", "ok", "ok", "ok", "5", "10"]
+
+/-! `upd_error_stores_nothing` is not vacuous: a rejected update in a reachable world -/
+#guard replay ["cfg a kind=plain dtype=i8 covord=0 spord=1", "upd a pix=3 val=4", "upd a pix=3,99 val=7",
+    "get a pix=3"] == ["ok", "ok", "err IndexError", "4"]
+
 
 end C08
 end HS
